@@ -24,6 +24,7 @@ from pyvc import core  # noqa: E402
 from pyvc.core import DISCHARGED, REFUTED, UNDECIDED, UNSUPPORTED, Session, source_info  # noqa: E402
 
 BOUNDED_PY = os.environ.get("VERIF_BOUNDED_PY", "/venv/bin/python")
+OUT = os.environ.get("VERIF_OUT", HERE)       # evidence/ and replays/ root (overridden for runs against scratch trees)
 
 
 def base_name(name: str) -> str:
@@ -42,8 +43,14 @@ def _run_target(args):
         run(sess)
     except Exception as ex:
         from pyvc.symex import Unsupported
-        if isinstance(ex, (Unsupported, LookupError)):
+        from pyvc.overload import Unsupported as OUnsupported
+        tb = traceback.extract_tb(ex.__traceback__)
+        in_real_code = bool(tb) and tb[-1].filename.startswith("<") and isinstance(ex, (NameError, AttributeError, TypeError, KeyError, IndexError, ValueError))
+        if isinstance(ex, (Unsupported, OUnsupported, LookupError)) and not isinstance(ex, (KeyError, IndexError)):
             sess.unsupported(f"{type(ex).__name__}: {ex}")
+        elif in_real_code:
+            # the real function, executed on stand-in values, left the modelled subset (new name, new attribute, ...)
+            sess.unsupported(f"real code left the modelled subset at {tb[-1].filename}:{tb[-1].lineno}: {type(ex).__name__}: {ex}")
         else:
             crash = traceback.format_exc()
     obs = []
@@ -76,7 +83,7 @@ def run_bounded_layer(prop: str, tier: str, seed: int) -> Dict[str, Any]:
     script = os.path.join(HERE, "bounded", f"{prop.lower()}.py")
     if not os.path.exists(script):
         return {}
-    out = os.path.join(HERE, "evidence", f".{prop}.bounded.json")
+    out = os.path.join(OUT, "evidence", f".{prop}.bounded.json")
     os.makedirs(os.path.dirname(out), exist_ok=True)
     if os.path.exists(out):
         os.unlink(out)
@@ -149,7 +156,7 @@ def main(argv=None) -> int:
     t0 = time.time()
     if a.replay:
         return replay(a.replay)
-    evidence_path = os.path.join(HERE, "evidence", f"{prop}.json")
+    evidence_path = os.path.join(OUT, "evidence", f"{prop}.json")
     os.makedirs(os.path.dirname(evidence_path), exist_ok=True)
     try:
         meta = importlib.import_module("contracts.meta").META[prop]
@@ -158,7 +165,7 @@ def main(argv=None) -> int:
         return 3
 
     import shutil
-    shutil.rmtree(os.path.join(HERE, "replays", prop), ignore_errors=True)
+    shutil.rmtree(os.path.join(OUT, "replays", prop), ignore_errors=True)
     results = run_proof_layer(prop, a.procs)
     bounded = run_bounded_layer(prop, tier, seed)
     known = load_known()
@@ -212,7 +219,7 @@ def main(argv=None) -> int:
             json.dump(data, fh, indent=1, sort_keys=True)
 
     # attach native witnesses from the bounded layer to refuted obligations of the same function
-    replay_dir = os.path.join(HERE, "replays", prop)
+    replay_dir = os.path.join(OUT, "replays", prop)
     lines = []
     nviol = 0
     if violations or b_fail_new:
@@ -235,7 +242,7 @@ def main(argv=None) -> int:
             json.dump({"property": prop, "obligation": o["name"], "kind": o["kind"], "function": o["function"], "line": o["line"],
                        "solver": o["backend"], "formula": o["formula"], "model": o["model"], "solver_output": o["detail"],
                        "witness": wit, "repro": (wit or {}).get("repro")}, fh, indent=1)
-        rel = os.path.relpath(path, HERE)
+        rel = os.path.relpath(path, OUT)
         lines.append(f"VIOLATION property={prop} replay={rel}" + ("" if wit else " no-failing-input-found"))
         nviol += 1
     for f in b_fail_new:
@@ -244,7 +251,7 @@ def main(argv=None) -> int:
         path = os.path.join(replay_dir, "bounded_" + hashlib.sha1(f["key"].encode()).hexdigest()[:12] + ".json")
         with open(path, "w") as fh:
             json.dump({"property": prop, "obligation": f"bounded:{f['key']}", "witness": f, "repro": f.get("repro")}, fh, indent=1)
-        lines.append(f"VIOLATION property={prop} replay={os.path.relpath(path, HERE)}")
+        lines.append(f"VIOLATION property={prop} replay={os.path.relpath(path, OUT)}")
         nviol += 1
     seen = set()
     for k, o in known_lines:
